@@ -66,7 +66,7 @@ def statLine (spec : Bool) (s : St Float) : String :=
   let v : View Float := viewOf spec s
   let blk := if spec then (refW gL s.hist (cbs gL s.now + gL - vI) (cbs gL s.now)).block else vSum s.arr vI s.now .block
   let maxavg := v.maxComplete.toFloat * vS.toFloat / vI.toFloat * 1000.0
-  s!"p={v.pass} b={blk} c={v.complete} conc={v.conc} avgrt={avgRtOf v} minrt={v.minRt} qps={fbits (fA.qps v.pass)} maxavg={fbits maxavg}"
+  s!"[p={v.pass} b={blk} c={v.complete} conc={v.conc} avgrt={avgRtOf v} minrt={v.minRt} qps={fbits (fA.qps v.pass)} maxavg={fbits maxavg}]"
 
 def stepLine (spec : Bool) (s : St Float) (ts : List String) (_ : String) : St Float × Option String :=
   match ts with
@@ -87,7 +87,24 @@ def stepLine (spec : Bool) (s : St Float) (ts : List String) (_ : String) : St F
           else (s', showRes r)
       | _, _ => (s', showRes r)
 
+/-- `explain` mode (measurement only, never compared): the code-shaped run, each inbound decision annotated
+    with the metric types of the violated loaded rules and with the role of the BBR capacity term
+    (`over`/`under` when some BBR load/cpu rule has its reading above the trigger, `na` otherwise) -/
+def explainLine (s : St Float) (ts : List String) (ln : String) : St Float × Option String :=
+  let (s', r) := stepLine false s ts ln
+  match parseOp? ts, r with
+  | some (.entry _ true _), some r =>
+    if !s.started then (s', some r) else
+    let v : View Float := viewOf false s
+    let viol := (s.rules.filter fun x => decide (violated fA v x)).map fun x => toString x.metric
+    let armed := s.rules.any fun x => x.strategy == 1 &&
+      ((x.metric == 0 && decide (x.trigger < v.load)) || (x.metric == 4 && decide (x.trigger < v.cpu)))
+    let bbr := if !armed then "na" else if decide (overCapacity fA v) then "over" else "under"
+    (s', some (r ++ " ; viol=" ++ ",".intercalate viol ++ " ; bbr=" ++ bbr ++ " ; conc=" ++ toString v.conc))
+  | _, _ => (s', r)
+
 def run (mode : String) : IO Unit :=
-  loop init (stepLine (mode == "spec"))
+  if mode == "explain" then loop init explainLine
+  else loop init (stepLine (mode == "spec"))
 
 end Sentinel.Drv.C07
